@@ -151,6 +151,7 @@ def run(ctx):
     ctx.stage("record", wall, **{k: v for k, v in info.items() if k not in ("families",)})
     sig_of = make_sig(info)
     n = vlib.check_trace(ctx, "Trace_WordKernels.tla", "Trace.cfg", tp, sig_of, group_key=lambda e: True,   # events are self-contained
+                         selftest_filter=lambda e: e.get("e") in ("w", "blk"),   # r = a kernel result there
                          timeout=3000, xmx="6g")
     total_results = info["results"]
     evs = vlib.read_ndjson(tp)
